@@ -88,7 +88,13 @@ type mnode struct {
 	HasData bool
 	UFS     *ufsFields // structured payload; when nil and HasData, Garbage is used verbatim
 	Garbage []byte
+	Inline  bool // raw leaf linked by an identity CID (the block is the link)
+	Cbor    bool // byte leaf stored under a third codec (dag-cbor byte string)
 }
+
+var cborProto = cidlink.LinkPrototype{Prefix: cid.Prefix{Version: 1, Codec: 0x71, MhType: 0x12, MhLength: 32}}
+
+var rawInlineProto = cidlink.LinkPrototype{Prefix: cid.Prefix{Version: 1, Codec: codecRaw, MhType: 0x00, MhLength: -1}}
 
 func u64p(v uint64) *uint64 { return &v }
 func i64p(v int64) *int64   { return &v }
@@ -97,7 +103,14 @@ func strp(s string) *string { return &s }
 // store encodes the DAG bottom-up into st and returns the root CID.
 func (m *mnode) store(st *Store, ls *ipld.LinkSystem) (cid.Cid, error) {
 	if m.IsRaw {
-		l, err := ls.Store(lc0, rawProto, basicnode.NewBytes(m.Raw))
+		proto := rawProto
+		if m.Inline {
+			proto = rawInlineProto
+		}
+		if m.Cbor {
+			proto = cborProto
+		}
+		l, err := ls.Store(lc0, proto, basicnode.NewBytes(m.Raw))
 		if err != nil {
 			return cid.Undef, err
 		}
@@ -249,7 +262,7 @@ func genHostileUFS(t *rapid.T, m *mnode) {
 		m.Garbage = rapid.SliceOfN(rapid.Byte(), 0, 12).Draw(t, "gbytes")
 		return
 	}
-	u := &ufsFields{Type: rapid.SampledFrom([]uint64{0, 1, 2, 2, 2, 3, 4, 5, 5, 5, 5, 6, 99}).Draw(t, "type")}
+	u := &ufsFields{Type: rapid.SampledFrom([]uint64{0, 1, 2, 2, 2, 3, 4, 5, 5, 5, 5, 6, 99, 1 << 63, ^uint64(0), 1<<32 + 5}).Draw(t, "type")}
 	ints := rapid.SampledFrom(hostileInts)
 	if rapid.Bool().Draw(t, "hasData") {
 		u.HasData = true
@@ -391,7 +404,7 @@ func mutate(t *rapid.T, m *mnode) string {
 		if m.UFS == nil {
 			return ""
 		}
-		m.UFS.Type = rapid.SampledFrom([]uint64{0, 1, 2, 3, 4, 5, 6, 99}).Draw(t, "ntype")
+		m.UFS.Type = rapid.SampledFrom([]uint64{0, 1, 2, 3, 4, 5, 6, 99, 1 << 63, ^uint64(0), 1<<32 + 2}).Draw(t, "ntype")
 	case "huge-consistent-sizes":
 		// FileSize and BlockSizes that agree with each other (one entry per link, FileSize = their sum) but are enormous:
 		// a reader that trusts numbers once they are self-consistent must still not allocate by them
